@@ -106,7 +106,7 @@ Section Complete.
     exists s', circular_branch U cfg rec cands backup mark i CComplete s = rec ((i + 1) mod (length cands + 1)) s'
                /\ e_line s' = e_line s /\ e_changes s' = e_changes s /\ e_hist s' = e_hist s.
   Proof.
-    unfold circular_branch. run_c. destruct (Nat.eqb ((i + 1) mod (length cands + 1)) (length cands));
+    unfold circular_branch. run_c. destruct (c_bell cfg); destruct (Nat.eqb ((i + 1) mod (length cands + 1)) (length cands));
       eexists; (split; [reflexivity|]); repeat split.
   Qed.
   Theorem backtab_goes_back s cands backup mark i :
@@ -114,7 +114,7 @@ Section Complete.
                = rec (if Nat.eqb i 0 then length cands else (i - 1) mod (length cands + 1)) s'
                /\ e_line s' = e_line s /\ e_changes s' = e_changes s /\ e_hist s' = e_hist s.
   Proof.
-    unfold circular_branch. run_c. destruct (Nat.eqb i 0); eexists; (split; [reflexivity|]); repeat split.
+    unfold circular_branch. run_c. destruct (c_bell cfg); destruct (Nat.eqb i 0); eexists; (split; [reflexivity|]); repeat split.
   Qed.
 
   (* Escape / Ctrl-G: the original text and cursor, and the undo stack truncated to the mark taken when the
